@@ -374,11 +374,11 @@ impl Query {
 //@@ end
 
 // ---- the table behind the lock: BTreeMap<String, Doc> (ASSUMED: an exact keyed table; iteration visits every entry once)
-pub ghost struct MemAbs {
-    pub docs: Map<Seq<char>, Doc>,
+pub tracked struct MemAbs {
+    pub ghost docs: Map<Seq<char>, Doc>,
     // ghost results of the last `query` (what the answer is an answer TO): the enumeration of the table it saw and the ordered match list it paged
-    pub q_entries: Seq<(String, Doc)>,
-    pub q_sorted: Seq<Doc>,
+    pub ghost q_entries: Seq<(String, Doc)>,
+    pub ghost q_sorted: Seq<Doc>,
 }
 #[verifier::external_body]
 pub struct DbCell { _p: u8 }
@@ -402,15 +402,15 @@ pub fn db_entries(db: &DbCell, Tracked(st): Tracked<&mut MemAbs>) -> (r: Vec<(St
 // R11: `self.db.write().unwrap().insert(k, v)`
 #[verifier::external_body]
 pub fn db_insert(db: &DbCell, k: String, v: Doc, Tracked(st): Tracked<&mut MemAbs>)
-    ensures final(st).docs == old(st).docs.insert(k@, v) { unimplemented!() }
+    ensures *final(st) == (MemAbs { docs: old(st).docs.insert(k@, v), ..*old(st) }) { unimplemented!() }
 // R11: `self.db.write().unwrap().entry(k).and_modify(|iter| *iter = v)`: replace when present, nothing otherwise
 #[verifier::external_body]
 pub fn db_replace(db: &DbCell, k: String, v: Doc, Tracked(st): Tracked<&mut MemAbs>)
-    ensures final(st).docs == (if old(st).docs.dom().contains(k@) { old(st).docs.insert(k@, v) } else { old(st).docs }) { unimplemented!() }
+    ensures *final(st) == (MemAbs { docs: if old(st).docs.dom().contains(k@) { old(st).docs.insert(k@, v) } else { old(st).docs }, ..*old(st) }) { unimplemented!() }
 // R11: `self.db.write().unwrap().remove(id)`
 #[verifier::external_body]
 pub fn db_remove(db: &DbCell, id: &str, Tracked(st): Tracked<&mut MemAbs>)
-    ensures final(st).docs == old(st).docs.remove(id@) { unimplemented!() }
+    ensures *final(st) == (MemAbs { docs: old(st).docs.remove(id@), ..*old(st) }) { unimplemented!() }
 #[verifier::external_body]
 pub fn str_to_string(s: &str) -> (r: String) ensures r@ == s@ { unimplemented!() }
 
@@ -490,20 +490,27 @@ impl<T: DbDocument> Collect<T> {
 
 // ---- the whole query ---------------------------------------------------------------------------------------------------------
 pub open spec fn derefs(s: Seq<&Doc>) -> Seq<Doc> { s.map_values(|d: &Doc| *d) }
-pub open spec fn keyset(es: Seq<(String, Doc)>, p: spec_fn(Doc) -> bool) -> Set<Box<[u8]>> {
-    Set::new(|b: Box<[u8]>| exists|i: int| 0 <= i < es.len() && b == kb((#[trigger] es[i]).0@) && p(es[i].1))
+// named spec functions (so that every occurrence is the same term)
+pub open spec fn qh(q: Query) -> spec_fn((String, Doc)) -> bool { |e: (String, Doc)| query_holds(q, e.1) }
+pub open spec fn eh(x: Expr) -> spec_fn(Doc) -> bool { |d: Doc| expr_holds(x, d) }
+pub open spec fn in_items(items: Set<Box<[u8]>>) -> spec_fn((String, Doc)) -> bool { |e: (String, Doc)| items.contains(kb(e.0@)) }
+pub open spec fn snd() -> spec_fn((String, Doc)) -> Doc { |e: (String, Doc)| e.1 }
+pub open spec fn to_model<T>() -> spec_fn(Doc) -> T { |d: Doc| model_of::<T>(d) }
+// s is the set of the ids (as set elements) of the first n entries whose document satisfies p
+pub open spec fn is_keyset(s: Set<Box<[u8]>>, es: Seq<(String, Doc)>, n: int, p: spec_fn(Doc) -> bool) -> bool {
+    forall|b: Box<[u8]>| #[trigger] s.contains(b) <==> exists|i: int| 0 <= i < n && b == kb((#[trigger] es[i]).0@) && p(es[i].1)
 }
 pub open spec fn distinct_keys(es: Seq<(String, Doc)>) -> bool { forall|i: int, j: int| 0 <= i < j < es.len() ==> (#[trigger] es[i]).0@ != (#[trigger] es[j]).0@ }
-pub proof fn lemma_keyset_mem(es: Seq<(String, Doc)>, p: spec_fn(Doc) -> bool, i: int)
-    requires distinct_keys(es), 0 <= i < es.len(),
-    ensures keyset(es, p).contains(kb(es[i].0@)) <==> p(es[i].1)
+pub proof fn lemma_keyset_mem(s: Set<Box<[u8]>>, es: Seq<(String, Doc)>, p: spec_fn(Doc) -> bool, i: int)
+    requires distinct_keys(es), 0 <= i < es.len(), is_keyset(s, es, es.len() as int, p),
+    ensures s.contains(kb(es[i].0@)) <==> p(es[i].1)
 {
-    broadcast use axiom_kb_injective;
-    if keyset(es, p).contains(kb(es[i].0@)) {
+    if s.contains(kb(es[i].0@)) {
         let j = choose|j: int| 0 <= j < es.len() && kb(es[i].0@) == kb((#[trigger] es[j]).0@) && p(es[j].1);
         axiom_kb_injective(es[i].0@, es[j].0@);
         if i < j { assert(es[i].0@ != es[j].0@); } else if j < i { assert(es[j].0@ != es[i].0@); }
     }
+    if p(es[i].1) { assert(0 <= i < es.len() && kb(es[i].0@) == kb(es[i].0@) && p(es[i].1)); }
 }
 pub proof fn lemma_acc_and_mem<K>(fed: Seq<Set<K>>, x: K)
     requires fed.len() >= 1
@@ -543,22 +550,32 @@ pub proof fn lemma_acc_or_mem<K>(fed: Seq<Set<K>>, x: K)
 // the accumulated result of one condition = the ids of the documents that satisfy it
 pub proof fn lemma_cond_keyset(es: Seq<(String, Doc)>, c: Cond, fed: Seq<Set<Box<[u8]>>>)
     requires distinct_keys(es), c.conds@.len() >= 1, fed.len() == c.conds@.len(),
-        forall|m: int| 0 <= m < fed.len() ==> #[trigger] fed[m] =~= keyset(es, |d: Doc| expr_holds(c.conds@[m], d)),
+        forall|m: int| 0 <= m < fed.len() ==> is_keyset(#[trigger] fed[m], es, es.len() as int, eh(c.conds@[m])),
     ensures forall|i: int| 0 <= i < es.len() ==> (cond_acc(c.r#type, fed).contains(kb((#[trigger] es[i]).0@)) <==> cond_holds(c, es[i].1)),
         forall|b: Box<[u8]>| cond_acc(c.r#type, fed).contains(b) ==> exists|i: int| 0 <= i < es.len() && b == kb((#[trigger] es[i]).0@),
 {
     assert forall|i: int| 0 <= i < es.len() implies (cond_acc(c.r#type, fed).contains(kb((#[trigger] es[i]).0@)) <==> cond_holds(c, es[i].1)) by {
         let x = kb(es[i].0@);
-        assert forall|m: int| 0 <= m < fed.len() implies ((#[trigger] fed[m]).contains(x) <==> expr_holds(c.conds@[m], es[i].1)) by {
-            lemma_keyset_mem(es, |d: Doc| expr_holds(c.conds@[m], d), i);
+        let d = es[i].1;
+        assert forall|m: int| 0 <= m < fed.len() implies ((#[trigger] fed[m]).contains(x) <==> expr_holds(c.conds@[m], d)) by {
+            lemma_keyset_mem(fed[m], es, eh(c.conds@[m]), i);
+            assert(eh(c.conds@[m])(d) == expr_holds(c.conds@[m], d));
         }
         match c.r#type {
-            CondType::And => { lemma_acc_and_mem(fed, x); }
+            CondType::And => {
+                lemma_acc_and_mem(fed, x);
+                if cond_holds(c, d) {
+                    assert forall|m: int| 0 <= m < fed.len() implies (#[trigger] fed[m]).contains(x) by { assert(expr_holds(c.conds@[m], d)); }
+                }
+                if acc_and(fed).contains(x) {
+                    assert forall|m: int| 0 <= m < c.conds@.len() implies expr_holds(#[trigger] c.conds@[m], d) by { assert(fed[m].contains(x)); }
+                }
+            }
             CondType::Or => {
                 lemma_acc_or_mem(fed, x);
-                if cond_holds(c, es[i].1) { let m = choose|m: int| 0 <= m < c.conds@.len() && expr_holds(#[trigger] c.conds@[m], es[i].1); assert(fed[m].contains(x)); }
-                if exists|m: int| 0 <= m < fed.len() && (#[trigger] fed[m]).contains(x) {
-                    let m = choose|m: int| 0 <= m < fed.len() && (#[trigger] fed[m]).contains(x); assert(expr_holds(c.conds@[m], es[i].1));
+                if cond_holds(c, d) { let m = choose|m: int| 0 <= m < c.conds@.len() && expr_holds(#[trigger] c.conds@[m], d); assert(fed[m].contains(x)); }
+                if acc_or(fed).contains(x) {
+                    let m = choose|m: int| 0 <= m < fed.len() && (#[trigger] fed[m]).contains(x); assert(expr_holds(c.conds@[m], d));
                 }
             }
         }
@@ -571,7 +588,7 @@ pub proof fn lemma_cond_keyset(es: Seq<(String, Doc)>, c: Cond, fed: Seq<Set<Box
     }
 }
 pub open spec fn matches_of(es: Seq<(String, Doc)>, q: Query) -> Seq<Doc> {
-    es.filter(|e: (String, Doc)| query_holds(q, e.1)).map_values(|e: (String, Doc)| e.1)
+    es.filter(qh(q)).map_values(snd())
 }
 pub proof fn lemma_filter_agree<A>(s: Seq<A>, p: spec_fn(A) -> bool, r: spec_fn(A) -> bool)
     requires forall|i: int| 0 <= i < s.len() ==> (p(#[trigger] s[i]) <==> r(s[i]))
@@ -619,15 +636,20 @@ pub proof fn lemma_filter_elems<A>(s: Seq<A>, p: spec_fn(A) -> bool)
         }
     }
 }
+pub open spec fn from_entries(es: Seq<(String, Doc)>, d: Doc) -> bool { exists|j: int| 0 <= j < es.len() && d == (#[trigger] es[j]).1 }
 pub proof fn lemma_matches_from(es: Seq<(String, Doc)>, q: Query)
-    ensures forall|i: int| 0 <= i < matches_of(es, q).len() ==> exists|j: int| 0 <= j < es.len() && #[trigger] matches_of(es, q)[i] == es[j].1
+    ensures forall|i: int| 0 <= i < matches_of(es, q).len() ==> from_entries(es, #[trigger] matches_of(es, q)[i])
 {
-    let p = |e: (String, Doc)| query_holds(q, e.1);
+    let p = qh(q);
+    let f = es.filter(p);
     lemma_filter_elems(es, p);
-    assert forall|i: int| 0 <= i < matches_of(es, q).len() implies exists|j: int| 0 <= j < es.len() && #[trigger] matches_of(es, q)[i] == es[j].1 by {
-        assert(es.contains(es.filter(p)[i]));
-        let j = choose|j: int| 0 <= j < es.len() && es[j] == es.filter(p)[i];
-        assert(matches_of(es, q)[i] == es[j].1);
+    assert(matches_of(es, q).len() == f.len());
+    assert forall|i: int| 0 <= i < matches_of(es, q).len() implies from_entries(es, #[trigger] matches_of(es, q)[i]) by {
+        assert(es.contains(f[i]));
+        let j = choose|j: int| 0 <= j < es.len() && es[j] == f[i];
+        assert(matches_of(es, q)[i] == snd()(f[i]));
+        assert(snd()(es[j]) == es[j].1);
+        assert(0 <= j < es.len() && matches_of(es, q)[i] == es[j].1);
     }
 }
 pub open spec fn is_sorted(s: Seq<Doc>, keys: Seq<(String, bool)>) -> bool {
@@ -639,11 +661,11 @@ pub open spec fn page_of<A>(s: Seq<A>, off: int, lim: int) -> Seq<A> {
 // R7: `db.iter().map(|(_, v)| v).collect::<Vec<_>>()`: every stored document, in table order
 #[verifier::external_body]
 pub fn all_values<'a>(db: &'a Vec<(String, Doc)>) -> (r: Vec<&'a Doc>)
-    ensures derefs(r@) == db@.map_values(|e: (String, Doc)| e.1) { unimplemented!() }
+    ensures derefs(r@) == db@.map_values(snd()) { unimplemented!() }
 // R7: `db.iter().filter_map(|(k, v)| { if items.contains(&<id bytes of k>) { return Some(v); } None }).collect::<Vec<_>>()`
 #[verifier::external_body]
 pub fn values_in<'a>(db: &'a Vec<(String, Doc)>, items: &HashSet<Box<[u8]>>) -> (r: Vec<&'a Doc>)
-    ensures derefs(r@) == db@.filter(|e: (String, Doc)| items@.contains(kb(e.0@))).map_values(|e: (String, Doc)| e.1) { unimplemented!() }
+    ensures derefs(r@) == db@.filter(in_items(items@)).map_values(snd()) { unimplemented!() }
 // R7 + R9: `rows.sort_by(<the comparator closure>)`: slice::sort_by orders by the comparator it is given (the closure is cut out and proved
 // equal to lex_cmp over q.order_by as Collect::query::order) and keeps the elements
 #[verifier::external_body]
@@ -659,7 +681,7 @@ pub fn div_ceil_usize(a: usize, b: usize) -> (r: usize)
 // R7: `rows.iter().skip(o).take(l).map(|row| map_to_model::<T>(row).unwrap()).collect::<Vec<_>>()`: the records of the sub-range [o, o+l)
 #[verifier::external_body]
 pub fn page_models<T>(rows: &Vec<&Doc>, off: usize, lim: usize) -> (r: Vec<T>)
-    ensures r@ == page_of(derefs(rows@), off as int, lim as int).map_values(|d: Doc| model_of::<T>(d)) { unimplemented!() }
+    ensures r@ == page_of(derefs(rows@), off as int, lim as int).map_values(to_model::<T>()) { unimplemented!() }
 
 impl<T: DbDocument> Collect<T> {
 //@@ extract file=acts/src/store/db/mem/collect.rs in="impl<T> DbCollection for Collect<T>" item="fn query" name=Collect::query
@@ -695,7 +717,7 @@ impl<T: DbDocument> Collect<T> {
         //# Q3-the-true-total-count
         ret is Ok ==> ret->Ok_0.count == matches_of(final(st).q_entries, *q).len(),
         //# Q3-paged-by-offset-and-limit
-        ret is Ok ==> ret->Ok_0.rows@ == page_of(final(st).q_sorted, q.offset as int, q_limit(*q)).map_values(|d: Doc| model_of::<T>(d)),
+        ret is Ok ==> ret->Ok_0.rows@ == page_of(final(st).q_sorted, q.offset as int, q_limit(*q)).map_values(to_model::<T>()),
         //# Q3-page-arithmetic
         ret is Ok ==> ret->Ok_0.page_size as int == q_limit(*q) && ret->Ok_0.page_count as int == (ret->Ok_0.count as int + q_limit(*q) - 1) / q_limit(*q)
             && ret->Ok_0.page_num as int == q.offset as int / q_limit(*q) + 1,
@@ -711,8 +733,9 @@ impl<T: DbDocument> Collect<T> {
         }
 //@@ proof after=all_values#1
             proof {
-                assert forall|i: int| 0 <= i < es.len() implies (|e: (String, Doc)| query_holds(q0, e.1))(#[trigger] es[i]) by {}
-                lemma_filter_all(es, |e: (String, Doc)| query_holds(q0, e.1));
+                assert forall|i: int| 0 <= i < es.len() implies qh(q0)(#[trigger] es[i]) by {}
+                lemma_filter_all(es, qh(q0));
+                assert(derefs(rows@) == matches_of(es, q0));
             }
 //@@ loop 1
         invariant
@@ -722,7 +745,7 @@ impl<T: DbDocument> Collect<T> {
                 && (forall|j: int| 0 <= j < q0.conds@.len() ==> !(#[trigger] q0.conds@[j]).calculated && q0.conds@[j].conds@.len() >= 1)
                 && (forall|j: int| __m1 <= j < q.conds@.len() ==> #[trigger] q.conds@[j] == q0.conds@[j])
                 && (forall|j: int, i: int| 0 <= j < __m1 && 0 <= i < es.len() ==> ((#[trigger] q.conds@[j]).result@.contains(kb((#[trigger] es[i]).0@)) <==> cond_holds(q0.conds@[j], es[i].1)))
-                && (forall|j: int, b: Box<[u8]>| 0 <= j < __m1 && (#[trigger] q.conds@[j]).result@.contains(b) ==> exists|i: int| 0 <= i < es.len() && b == kb((#[trigger] es[i]).0@)),
+                && (forall|j: int, b: Box<[u8]>| 0 <= j < __m1 && #[trigger] q.conds@[j].result@.contains(b) ==> exists|i: int| 0 <= i < es.len() && b == kb((#[trigger] es[i]).0@)),
         decreases q.conds@.len() - __m1
 //@@ proof at=loop1
                 let ghost c0 = q0.conds@[__m1 as int];
@@ -733,20 +756,20 @@ impl<T: DbDocument> Collect<T> {
             __v2@ == c0.conds@ && cond.r#type == c0.r#type && cond.conds == c0.conds && fed.len() == __i2 && cond.calculated == (__i2 > 0)
                 && (__i2 > 0 ==> cond.result@ =~= cond_acc(c0.r#type, fed)) && db@ == es && distinct_keys(es) && c0 == q0.conds@[__m1 as int] && __m1 < q0.conds@.len()
                 && (forall|i: int| 0 <= i < es.len() ==> doc_has_filter_keys(q0, (#[trigger] es[i]).1))
-                && (forall|m: int| 0 <= m < __i2 ==> #[trigger] fed[m] =~= keyset(es, |d: Doc| expr_holds(c0.conds@[m], d))),
+                && (forall|m: int| 0 <= m < __i2 ==> is_keyset(#[trigger] fed[m], es, es.len() as int, eh(c0.conds@[m]))),
 //@@ proof at=loop2
-                    let ghost e0 = c0.conds@[__i2 as int - 1];
+                    let ghost e0 = c0.conds@[__i2 as int];
 //@@ loop 3
         invariant
             //# ids-of-the-documents-the-expression-holds-for
             __v3@ == es && *expr == e0 && e0 == c0.conds@[__i2 as int - 1] && c0 == q0.conds@[__m1 as int] && 0 < __i2 <= c0.conds@.len() && __m1 < q0.conds@.len()
                 && (forall|i: int| 0 <= i < es.len() ==> doc_has_filter_keys(q0, (#[trigger] es[i]).1))
-                && result@ =~= Set::new(|b: Box<[u8]>| exists|i: int| 0 <= i < __i3 && b == kb((#[trigger] es[i]).0@) && expr_holds(e0, es[i].1)),
+                && is_keyset(result@, es, __i3 as int, eh(e0)),
 //@@ proof at=loop3
-                        proof { assert(doc_has_filter_keys(q0, es[__i3 as int - 1].1)); assert(q0.conds@[__m1 as int].conds@[__i2 as int - 1] == e0); }
+                        proof { assert(doc_has_filter_keys(q0, es[__i3 as int].1)); assert(q0.conds@[__m1 as int].conds@[__i2 as int - 1] == e0); }
 //@@ proof after=calc#1
                     proof {
-                        assert(result@ =~= keyset(es, |d: Doc| expr_holds(e0, d)));
+                        assert(is_keyset(result@, es, es.len() as int, eh(e0)));
                         fed = fed.push(result@);
                     }
 //@@ proof at=afterloop2
@@ -766,19 +789,20 @@ impl<T: DbDocument> Collect<T> {
             }
 //@@ proof after=values_in#1
                 proof {
-                    lemma_filter_agree(es, |e: (String, Doc)| items@.contains(kb(e.0@)), |e: (String, Doc)| query_holds(q0, e.1));
+                    lemma_filter_agree(es, in_items(items@), qh(q0));
+                    assert(derefs(rows@) == matches_of(es, q0));
                 }
-//@@ proof before=is_empty#1
-        let ghost unsorted = derefs(rows@);
-        proof {
-            assert(unsorted == matches_of(es, q0));
-            lemma_matches_from(es, q0);
-            assert forall|i: int| 0 <= i < rows@.len() implies has_keys(*(#[trigger] rows@[i]), q0.order_by@) by {
-                assert(derefs(rows@)[i] == *rows@[i]);
-                let j = choose|j: int| 0 <= j < es.len() && matches_of(es, q0)[i] == es[j].1;
-                assert(has_keys(es[j].1, q0.order_by@));
+//@@ proof before=sort_rows#1
+            proof {
+                assert(derefs(rows@) == matches_of(es, q0));
+                lemma_matches_from(es, q0);
+                assert forall|i: int| 0 <= i < rows@.len() implies has_keys(*(#[trigger] rows@[i]), q0.order_by@) by {
+                    assert(derefs(rows@)[i] == *rows@[i]);
+                    assert(from_entries(es, matches_of(es, q0)[i]));
+                    let j = choose|j: int| 0 <= j < es.len() && matches_of(es, q0)[i] == (#[trigger] es[j]).1;
+                    assert(has_keys(es[j].1, q0.order_by@));
+                }
             }
-        }
 //@@ proof before=Ok#1
         proof {
             st.q_entries = es;
